@@ -466,32 +466,190 @@ def side_effects_in_subexpressions():
         out.append(Case(J(L), files={'f.txt': b'old\n'}, limits=dict(steps=5000), meta=dict(gen='side-effect-subexpr', sample=False)))
     return out
 
+# ------------------------------------------------------------------ round e
+def array_scope_matrix():
+    """an array name used in a routine: declared locally there, in the caller, in the caller's caller, globally, or nowhere; the routine reads,
+    writes, copies and passes it.  Only the own and the global declaration may be seen."""
+    out = []
+    uses = [['OUTPUT tab[1]'], ['tab[2] <- 99', 'OUTPUT tab[2]'], ['DECLARE saved : ARRAY[1:3] OF INTEGER', 'saved <- tab', 'OUTPUT saved[1], " ", saved[3]'],
+            ['OUTPUT tab[4]'], ['FOR i <- 1 TO 3', '  tab[i] <- tab[i] + 1', 'NEXT i', 'OUTPUT tab[3]']]
+    for use in uses:
+        for owners in (('global',), ('caller',), ('global', 'caller'), ('global', 'outer'), ('outer',), ('global', 'caller', 'own'), ('caller', 'own'), ()):
+            L = []
+            if 'global' in owners: L += ['DECLARE tab : ARRAY[1:3] OF INTEGER', 'tab[1] <- 1', 'tab[2] <- 2', 'tab[3] <- 3']
+            L += ['PROCEDURE Helper()']
+            if 'own' in owners: L += ['  DECLARE tab : ARRAY[1:4] OF INTEGER', '  tab[1] <- 41']
+            L += ['  ' + u for u in use] + ['  OUTPUT "helper done"', 'ENDPROCEDURE']
+            L += ['PROCEDURE Caller()']
+            if 'caller' in owners: L += ['  DECLARE tab : ARRAY[1:4] OF INTEGER', '  tab[1] <- 11', '  tab[4] <- 14']
+            L += ['  CALL Helper()']
+            if 'caller' in owners: L += ['  OUTPUT "caller sees ", tab[1], " ", tab[2]']
+            L += ['ENDPROCEDURE', 'PROCEDURE Outer()']
+            if 'outer' in owners: L += ['  DECLARE tab : ARRAY[1:4] OF INTEGER', '  tab[1] <- 21', '  tab[4] <- 24']
+            L += ['  CALL Caller()']
+            if 'outer' in owners: L += ['  OUTPUT "outer sees ", tab[1], " ", tab[2]']
+            L += ['ENDPROCEDURE', 'CALL Outer()']
+            if 'global' in owners: L += ['OUTPUT "global ", tab[1], " ", tab[2], " ", tab[3]']
+            out.append(Case(J(L), limits=dict(steps=5000), meta=dict(gen='array-scope-matrix', sample=False)))
+    return out
+
+def scalar_and_array_share_a_name():
+    """a constant or variable and an array of the same name (same scope, or one local and one global): every writer form must treat the
+    scalar as what it is"""
+    out = []
+    writers = {
+        'assign': ['c <- 7'], 'for': ['FOR c <- 1 TO 2', '  OUTPUT "it"', 'NEXT c'], 'input': ['INPUT c'],
+        'readfile': ['OPENFILE "t.txt" FOR READ', 'READFILE "t.txt", c'],
+        'getrecord': ['OPENFILE "r.dat" FOR RANDOM', 'SEEK "r.dat", 1', 'GETRECORD "r.dat", c'],
+        'putrecord': ['OPENFILE "r.dat" FOR RANDOM', 'SEEK "r.dat", 2', 'PUTRECORD "r.dat", c', 'CLOSEFILE "r.dat"'],
+        'element': ['c[1] <- 9', 'OUTPUT c[1]'], 'byref': ['PROCEDURE W(BYREF x : INTEGER)', '  x <- 8', 'ENDPROCEDURE', 'CALL W(c)'],
+    }
+    for scalar in ('CONSTANT c = 5', 'DECLARE c : INTEGER'):
+        for wname, w in writers.items():
+            for place in ('same', 'array-local', 'scalar-local'):
+                defs = [l for l in w if l.startswith(('PROCEDURE', '  x', 'ENDPROCEDURE'))]
+                body = [l for l in w if l not in defs]
+                sc = [scalar] + (['c <- 5'] if scalar.startswith('DECLARE') else [])
+                ar = ['DECLARE c : ARRAY[1:2] OF INTEGER']
+                if place == 'same':
+                    L = defs + sc + ar + body + ['OUTPUT c']
+                elif place == 'array-local':
+                    L = defs + sc + ['PROCEDURE P()'] + ['  ' + l for l in ar + body] + ['  OUTPUT c', 'ENDPROCEDURE', 'CALL P()', 'OUTPUT c']
+                else:
+                    L = defs + ar + ['PROCEDURE P()'] + ['  ' + l for l in sc + body] + ['  OUTPUT c', 'ENDPROCEDURE', 'CALL P()']
+                out.append(Case(J(L), stdin=b'6\n', files={'t.txt': b'line\n', 'r.dat': b'INTEGER 42\n'}, limits=dict(steps=5000),
+                                meta=dict(gen='scalar-array-name-' + wname, sample=False)))
+    return out
+
+def pointer_to_implicit_record():
+    """a record variable that comes into being by assignment (no DECLARE) inside a routine -- from an outer record, a function result, an
+    array element -- and a pointer to one of its fields that outlives the routine"""
+    pre = ['TYPE Rec', '  DECLARE n : INTEGER', '  DECLARE v : ARRAY[1:2] OF INTEGER', 'ENDTYPE', 'TYPE IP = ^INTEGER', 'DECLARE g : Rec', 'DECLARE ga : ARRAY[1:2] OF Rec', 'DECLARE keep : IP',
+           'g.n <- 5', 'g.v[1] <- 6', 'ga[1].n <- 7',
+           'FUNCTION Make() RETURNS Rec', '  DECLARE t : Rec', '  t.n <- 8', '  RETURN t', 'ENDFUNCTION']
+    out = []
+    for src in ('g', 'Make()', 'ga[1]'):
+        for fld in ('n', 'v[1]'):
+            for declared in (False, True):
+                body = (['  DECLARE loc : Rec'] if declared else []) + ['  loc <- %s' % src, '  keep <- ^loc.%s' % fld, '  OUTPUT keep^']
+                L = pre + ['PROCEDURE Grab()'] + body + ['ENDPROCEDURE', 'PROCEDURE Noise()', '  DECLARE filler : ARRAY[1:8] OF INTEGER', '  filler[1] <- 99', 'ENDPROCEDURE',
+                           'CALL Grab()', 'CALL Noise()', 'OUTPUT "after"', 'OUTPUT keep^', 'keep^ <- 1', 'OUTPUT g.n']
+                out.append(Case(J(L), limits=dict(steps=5000), meta=dict(gen='pointer-to-implicit-record', sample=False)))
+    return out
+
+BAD_TYPES = {
+    'undefined-field-type': ['TYPE Bad', '  DECLARE a : INTEGER', '  DECLARE b : Nowhere', 'ENDTYPE'],
+    'bad-array-bounds': ['TYPE Bad', '  DECLARE a : INTEGER', '  DECLARE v : ARRAY[5:1] OF INTEGER', 'ENDTYPE'],
+    'duplicate-field': ['TYPE Bad', '  DECLARE a : INTEGER', '  DECLARE a : STRING', 'ENDTYPE'],
+    'bound-not-integer': ['TYPE Bad', '  DECLARE v : ARRAY[1:"x"] OF INTEGER', 'ENDTYPE'],
+}
+def failing_record_creation():
+    """a record type whose creation fails at run time (the TYPE statement itself succeeds), instantiated at call depth 0..3, in file mode and
+    in a REPL session that goes on afterwards (echo of bare expressions, later declarations, later errors)"""
+    out = []
+    for kind, tdef in BAD_TYPES.items():
+        for depth in (0, 1, 2, 3):
+            L = list(tdef)
+            names = ['Build', 'Mid', 'Top'][:depth]
+            inner = ['DECLARE r : Bad', 'OUTPUT "not reached"']
+            prev = None
+            for nm in names:
+                L += ['PROCEDURE %s()' % nm] + ['  ' + l for l in (inner if prev is None else ['CALL %s()' % prev, 'OUTPUT "back in %s"' % nm])] + ['ENDPROCEDURE']
+                prev = nm
+            L += (inner if prev is None else ['OUTPUT "start"', 'CALL %s()' % prev])
+            out.append(Case(J(L), limits=dict(steps=5000), meta=dict(gen='failing-record-creation', sample=False)))
+            ent = sum(gen.to_entries(L[:-1] if prev else L[:len(tdef)]), [])
+            ent += ['1 + 1', (('CALL %s()' % prev) if prev else 'DECLARE r : Bad'), '2 + 2', '"echo"', 'x <- 3', 'x', 'DECLARE q : Bad', 'x * 2', 'OUTPUT "still here"', '1 DIV 0', 'x + 1']
+            out.append(Case(mode='repl', stdin=J(ent), limits=dict(steps=20000), meta=dict(gen='failing-record-creation-repl', sample=False)))
+    return out
+
+def runfile_with_handles():
+    """REPL sessions that combine RUNFILE with file handles: opened at the prompt before the run, left open by the program that was run,
+    used again afterwards"""
+    out = []
+    progs = {
+        'plain.pseudo': b'OUTPUT "ran plain"\n',
+        'opens.pseudo': b'OPENFILE "p.txt" FOR WRITE\nWRITEFILE "p.txt", "from program"\nOUTPUT "ran opens"\n',
+        'closes.pseudo': b'OPENFILE "q.txt" FOR WRITE\nWRITEFILE "q.txt", "q"\nCLOSEFILE "q.txt"\nOUTPUT "ran closes"\n',
+        'fails.pseudo': b'OPENFILE "e.txt" FOR WRITE\nWRITEFILE "e.txt", "before error"\nOUTPUT 1 DIV 0\n',
+        'uses.pseudo': b'WRITEFILE "s.txt", "program writes to the session file"\n',
+    }
+    for prog in progs:
+        ent = ['OPENFILE "s.txt" FOR WRITE', 'WRITEFILE "s.txt", "one"', 'OPENFILE "r.dat" FOR RANDOM', 'DECLARE n : INTEGER', 'n <- 4', 'SEEK "r.dat", 1', 'PUTRECORD "r.dat", n',
+               'RUNFILE "%s"' % prog, 'WRITEFILE "s.txt", "two"', 'SEEK "r.dat", 2', 'PUTRECORD "r.dat", n', 'OPENFILE "p.txt" FOR READ', 'OPENFILE "e.txt" FOR APPEND',
+               'WRITEFILE "p.txt", "session"', 'CLOSEFILE "s.txt"', 'CLOSEFILE "r.dat"', 'RUNFILE "%s"' % prog, 'OPENFILE "s.txt" FOR APPEND', 'WRITEFILE "s.txt", "three"']
+        for tail in ([], ['EXIT'], ['CLOSEFILE "s.txt"']):
+            out.append(Case(mode='repl', stdin=J(ent + tail), files=dict(progs), limits=dict(steps=20000), meta=dict(gen='runfile-with-handles', sample=False)))
+    return out
+
+def declaredness_changes_per_activation():
+    """one INPUT / assignment statement executed by several activations; its target is declared in some of them (conditional DECLARE, earlier FOR,
+    parameter) and in others nowhere: under -p every execution with an undeclared target is rejected, without -p the variable is created"""
+    out = []
+    for stmt in ('INPUT v', 'v <- 5', 'READFILE "t.txt", v'):
+        for first_declared in (True, False):
+            for how in ('declare', 'for', 'recursion'):
+                if how == 'recursion':
+                    L = ['PROCEDURE Ask(BYVAL depth : INTEGER)', '  IF depth = %d THEN' % (2 if first_declared else 1), '    DECLARE v : STRING', '  ENDIF', '  ' + stmt, '  OUTPUT "got ", v',
+                         '  IF depth > 1 THEN', '    CALL Ask(depth - 1)', '  ENDIF', 'ENDPROCEDURE', 'OPENFILE "t.txt" FOR READ', 'CALL Ask(2)', 'OUTPUT "end"']
+                else:
+                    mk = ['    DECLARE v : STRING'] if how == 'declare' else ['    FOR v <- 1 TO 1', '    NEXT v']
+                    if how == 'for' and stmt != 'v <- 5': continue
+                    L = ['PROCEDURE Ask(BYVAL known : BOOLEAN)', '  IF known THEN'] + mk + ['  ENDIF', '  ' + stmt, '  OUTPUT "got ", v', 'ENDPROCEDURE', 'OPENFILE "t.txt" FOR READ',
+                         'CALL Ask(%s)' % ('TRUE' if first_declared else 'FALSE'), 'CALL Ask(%s)' % ('FALSE' if first_declared else 'TRUE'), 'CALL Ask(FALSE)', 'OUTPUT "end"']
+                for ped in ('', '-p'):
+                    out.append(Case(J(L), pedantic=ped, stdin=b'a\nb\nc\n', files={'t.txt': b'l1\nl2\nl3\n'}, limits=dict(steps=5000),
+                                    meta=dict(gen='declaredness-per-activation', sample=False)))
+    return out
+
+def records_with_array_fields_in_files():
+    """PUTRECORD / GETRECORD of records with array fields and of arrays of such records, with and without arrays declared in the scope that reads"""
+    out = []
+    for scope_arrays in ('none', 'same-shape', 'other-shape'):
+        for inproc in (False, True):
+            decl = ['TYPE Student', '  DECLARE name : STRING', '  DECLARE marks : ARRAY[1:3] OF INTEGER', '  DECLARE tags : ARRAY[0:1] OF STRING', 'ENDTYPE',
+                    'DECLARE s : Student', 'DECLARE t : Student', 'DECLARE cls : ARRAY[1:2] OF Student']
+            extra_arr = {'none': [], 'same-shape': ['DECLARE scratch : ARRAY[1:3] OF INTEGER', 'scratch[1] <- 77'], 'other-shape': ['DECLARE scratch : ARRAY[1:5] OF STRING']}[scope_arrays]
+            w = ['s.name <- "ann"', 's.marks[1] <- 10', 's.marks[2] <- 20', 's.marks[3] <- 30', 's.tags[0] <- "a b"', 's.tags[1] <- "#"', 'cls[2] <- s', 'cls[1].name <- "bob"', 'cls[1].marks[3] <- 3',
+                 'OPENFILE "st.dat" FOR RANDOM', 'SEEK "st.dat", 1', 'PUTRECORD "st.dat", s', 'SEEK "st.dat", 2', 'PUTRECORD "st.dat", cls', 'CLOSEFILE "st.dat"']
+            rd = ['OPENFILE "st.dat" FOR RANDOM', 'SEEK "st.dat", 1', 'GETRECORD "st.dat", t', 'OUTPUT t.name, " ", t.marks[1], " ", t.marks[2], " ", t.marks[3], " ", t.tags[0], " ", t.tags[1]',
+                  'cls[1].name <- "x"', 'cls[2].marks[1] <- 0', 'SEEK "st.dat", 2', 'GETRECORD "st.dat", cls', 'OUTPUT cls[1].name, " ", cls[1].marks[3], " ", cls[2].name, " ", cls[2].marks[1], " ", cls[2].tags[1]']
+            if scope_arrays == 'same-shape': rd += ['OUTPUT scratch[1]']
+            rd += ['SEEK "st.dat", 3', 'PUTRECORD "st.dat", t', 'CLOSEFILE "st.dat"']
+            if inproc:
+                L = decl + w + ['PROCEDURE ReadBack()'] + ['  ' + l for l in extra_arr + rd] + ['ENDPROCEDURE', 'CALL ReadBack()']
+            else:
+                L = decl + extra_arr + w + rd
+            out.append(Case(J(L), limits=dict(steps=10000), meta=dict(gen='records-with-array-fields-in-files', sample=False)))
+    return out
+
 def extra(pid, tier, rng):
     """the families each property's check runs in addition to its own generators"""
     if pid == 'C01':
         c = alias_then_replace() + shadowed_types() + deref_node_reuse() + far_seek() + far_dates_output() + far_dates_files()[0] + pedantic_tail_with_files() \
             + array_cross_types() + redeclared_bounds(rng) + scope_change_in_activation(rng) + empty_comment_faults()[:40] + call_type_matrix()
-        c += side_effects_in_subexpressions()
+        c += side_effects_in_subexpressions() + array_scope_matrix()[::3] + scalar_and_array_share_a_name() + pointer_to_implicit_record() + failing_record_creation() + runfile_with_handles() + declaredness_changes_per_activation()[::2] + records_with_array_fields_in_files()
         c += rng.sample(retyped_sites(rng, n_orders=1), 40) + rng.sample(nested_undeclared(rng), 20) + undeclared_field_vs_names()[::3]
         return c
     if pid == 'C02': return concat_matrix() + retyped_sites(rng, ['plus', 'minus', 'div', 'concat', 'less', 'not', 'and', 'length', 'mid'])
     if pid == 'C03': return retyped_sites(rng, ['while', 'repeat', 'if', 'case', 'for', 'forstep', 'not']) + shadowed_condition(rng)
-    if pid == 'C04': return side_effects_in_subexpressions() + call_type_matrix() + scope_change_in_activation(rng) + nested_undeclared(rng) + alias_then_replace()
+    if pid == 'C04': return array_scope_matrix() + side_effects_in_subexpressions() + call_type_matrix() + scope_change_in_activation(rng) + nested_undeclared(rng) + alias_then_replace()
     if pid == 'C05': return call_type_matrix() + array_cross_types() + retyped_sites(rng, ['store', 'byval', 'fn', 'index']) + shadowed_types()
-    if pid == 'C06': return side_effects_in_subexpressions() + redeclared_bounds(rng) + retyped_sites(rng, ['index']) + array_cross_types()
+    if pid == 'C06': return array_scope_matrix() + side_effects_in_subexpressions() + redeclared_bounds(rng) + retyped_sites(rng, ['index']) + array_cross_types()
     if pid == 'C07': return shadowed_types() + alias_then_replace() + undeclared_field_vs_names() + side_effects_in_subexpressions()
-    if pid == 'C08': return scope_change_in_activation(rng)
-    if pid == 'C09': return deref_node_reuse() + alias_then_replace()
+    if pid == 'C08': return scope_change_in_activation(rng) + scalar_and_array_share_a_name()
+    if pid == 'C09': return deref_node_reuse() + alias_then_replace() + pointer_to_implicit_record()
     if pid == 'C10':
         c = far_lines() + far_lines(runtime=True)
         for x in c: x.meta['relevant'] = ('stdout', 'exit', 'diags')
         return c
-    if pid == 'C11': return far_lines() + far_lines(runtime=True) + empty_comment_faults()
-    if pid == 'C13': return far_dates_files()[0]
-    if pid == 'C14': return far_seek()
+    if pid == 'C11': return far_lines() + far_lines(runtime=True) + empty_comment_faults() + failing_record_creation()
+    if pid == 'C12': return failing_record_creation() + runfile_with_handles()
+    if pid == 'C13': return far_dates_files()[0] + records_with_array_fields_in_files() + scalar_and_array_share_a_name()
+    if pid == 'C14': return far_seek() + records_with_array_fields_in_files()
     if pid == 'C15': return far_dates_files()[0] + far_dates_output()
-    if pid == 'C16': return pedantic_tail_with_files() + side_effects_in_subexpressions()
+    if pid == 'C16': return pedantic_tail_with_files() + side_effects_in_subexpressions() + runfile_with_handles()
     if pid == 'C18': return far_dates_output()
     if pid == 'C19': return array_cross_types() + shadowed_types()
-    if pid == 'C20': return nested_undeclared(rng) + shadowed_condition(rng) + pedantic_tail_with_files()
+    if pid == 'C20': return nested_undeclared(rng) + shadowed_condition(rng) + pedantic_tail_with_files() + declaredness_changes_per_activation()
     return []
